@@ -684,13 +684,15 @@ class NetworkGraph(AbstractBaseIR):
                                                        'value': 0.}
                         }
 
+            # slot i of the buffered vector is the delayed value of source unit source_idx[i] (a single slot is a plain
+            # assignment: an element-wise write would leave a (1,) array where the edge equation expects a scalar)
             buffer_eqs = []
+            scalar_source = len(target_shape) < 1 or (len(target_shape) == 1 and target_shape[0] == 1)
             for i, (d, sidx) in enumerate(zip(delays, source_idx)):
                 var_delayed = f"past({var}, {d})" if np.issubdtype(np.asarray(d).dtype, np.floating) or d > 1 else var
-                if len(target_shape) < 1 or (len(target_shape) == 1 and target_shape[0] == 1):
-                    buffer_eqs.append(f"{var}_buffered{buffer_id} = {var_delayed}")
-                else:
-                    buffer_eqs.append(f"index({var}_buffered{buffer_id}, {sidx}) = index({var_delayed}, {sidx})")
+                lhs = f"{var}_buffered{buffer_id}" if len(delays) == 1 else f"index({var}_buffered{buffer_id}, {i})"
+                rhs = var_delayed if scalar_source else f"index({var_delayed}, {sidx})"
+                buffer_eqs.append(f"{lhs} = {rhs}")
 
         # add buffer equations to node operator
         op_info = node_ir[op]
